@@ -17,7 +17,8 @@ Fields == [dflt : DefaultKinds, nonnull : BOOLEAN, name : NameClasses]
 ValidField(f) == ~(f.nonnull /\ f.dflt = "null")
 \* fields without a default: of a built-in type ("nodefault"), of a custom scalar the configuration does not map (emitted as
 \* Any: "nodefault_unmapped"), of an enum / input-object type ("nodefault_enum", "nodefault_object")
-NoDefaultKinds == {"nodefault", "nodefault_unmapped", "nodefault_enum", "nodefault_object"}
+NoDefaultKinds == {"nodefault", "nodefault_unmapped", "nodefault_enum", "nodefault_object", "nodefault_list_nullable_items",
+                   "nodefault_nested_list"}
 NoDefault(f) == f.dflt \in NoDefaultKinds
 Required(f) == f.nonnull /\ NoDefault(f)
 
